@@ -376,7 +376,6 @@ impl LogInnerManager {
         }
         let (index_dto, file_index_len, pop_index_count) =
             self.get_file_index_by_log_index(end_index)?;
-        let empty_data = vec![0u8, 1];
         if pop_index_count > 0 {
             for _i in 0..pop_index_count {
                 self.indexs.pop();
@@ -385,7 +384,9 @@ impl LogInnerManager {
             self.index_file
                 .seek(SeekFrom::Start(self.index_cursor))
                 .await?;
-            self.index_file.write_all(&empty_data).await?;
+            // erase every popped index entry, otherwise stale entries are read back after a reopen
+            let empty_index = vec![0u8; file_index_len as usize];
+            self.index_file.write_all(&empty_index).await?;
             self.index_file
                 .seek(SeekFrom::Start(self.index_cursor))
                 .await?;
@@ -402,10 +403,10 @@ impl LogInnerManager {
         self.data_cursor = data_cursor;
         self.msg_count = msg_count;
         self.current_index_count = current_index_count as u16;
-        self.data_file
-            .seek(SeekFrom::Start(self.data_cursor))
-            .await?;
-        self.data_file.write_all(&empty_data).await?;
+        // erase the removed suffix (truncate, then restore the preallocated length with zeros),
+        // otherwise a shorter or equal re-append leaves old records parseable after a reopen
+        self.data_file.set_len(self.data_cursor).await?;
+        self.data_file.set_len(self.file_len).await?;
         self.data_file
             .seek(SeekFrom::Start(self.data_cursor))
             .await?;
